@@ -186,3 +186,102 @@ def g_enc(ty, J):
 def g_dec(ty, b):
     l = len(b) // 3
     return tuple(tw_dec(ty, b[i * l:(i + 1) * l]) for i in range(3))
+
+# ---------------------------------------------------------------------------------------------
+# Textbook R-ate pairing of the SM9 standard (Part 1, Annex): independent of the library's code.
+#   e(P, Q) = ( f_{6t+2,Q}(P) * l_{[6t+2]Q, pi(Q)}(P) * l_{[6t+2]Q + pi(Q), -pi^2(Q)}(P) ) ^ ((q^12-1)/r)
+# computed with affine chord/tangent lines on E(F_q^12) after untwisting  psi(x', y') = (x' w^-2, y' w^-3).
+
+def f12_from_fq(a):
+    z2 = mk('Fq2', [0, 0])
+    z4 = mk('Fq4', [z2, z2])
+    return mk('Fq12', [mk('Fq4', [mk('Fq2', [a % Q, 0]), z2]), z4, z4])
+
+def f12_from_fq2(a):
+    z2 = mk('Fq2', [0, 0])
+    z4 = mk('Fq4', [z2, z2])
+    return mk('Fq12', [mk('Fq4', [a, z2]), z4, z4])
+
+_W = None
+def f12_w():
+    global _W
+    if _W is None:
+        z2 = mk('Fq2', [0, 0]); o2 = mk('Fq2', [1, 0])
+        z4 = mk('Fq4', [z2, z2])
+        _W = mk('Fq12', [z4, mk('Fq4', [o2, z2]), z4])
+    return _W
+
+def untwist(Qp):
+    """E'(Fq2) -> E(Fq12)"""
+    A = NUM
+    w = f12_w()
+    w2 = A.mul('Fq12', w, w)
+    w3 = A.mul('Fq12', w2, w)
+    x = A.mul('Fq12', f12_from_fq2(Qp[0]), tw_inv('Fq12', w2))
+    y = A.mul('Fq12', f12_from_fq2(Qp[1]), tw_inv('Fq12', w3))
+    return (x, y)
+
+def _line(T, S_, P):
+    """value at P of the line through T and S_ (tangent if T == S_) on E(Fq12): y - yT - lambda (x - xT); returns (value, T+S)"""
+    A = NUM; ty = 'Fq12'
+    xT, yT = T; xS, yS = S_
+    xP, yP = P
+    if xT == xS:
+        if tw_is_zero(A.add(ty, yT, yS)):
+            # vertical line: x - xT (killed by the final exponentiation; returned for completeness)
+            return A.sub(ty, xP, xT), None
+        lam = A.mul(ty, A.scalar(ty, A.mul(ty, xT, xT), 3), tw_inv(ty, A.dbl(ty, yT)))
+    else:
+        lam = A.mul(ty, A.sub(ty, yS, yT), tw_inv(ty, A.sub(ty, xS, xT)))
+    val = A.sub(ty, A.sub(ty, yP, yT), A.mul(ty, lam, A.sub(ty, xP, xT)))
+    x3 = A.sub(ty, A.sub(ty, A.mul(ty, lam, lam), xT), xS)
+    y3 = A.sub(ty, A.mul(ty, lam, A.sub(ty, xT, x3)), yT)
+    return val, (x3, y3)
+
+def rate_pairing(P, Qp):
+    """P affine in E(Fq) (or None), Qp affine in E'(Fq2) (or None) -> Fq12 element"""
+    if P is None or Qp is None:
+        return tw_one('Fq12')
+    A = NUM; ty = 'Fq12'
+    Pe = (f12_from_fq(P[0]), f12_from_fq(P[1]))
+    Qe = untwist(Qp)
+    a = 6 * T_PARAM + 2
+    f = tw_one(ty)
+    T = Qe
+    for bit in bin(a)[3:]:
+        l, T2 = _line(T, T, Pe)
+        f = A.mul(ty, A.mul(ty, f, f), l)
+        T = T2
+        if bit == '1':
+            l, T2 = _line(T, Qe, Pe)
+            f = A.mul(ty, f, l)
+            T = T2
+    Q1 = (pow_num(A, ty, Qe[0], Q), pow_num(A, ty, Qe[1], Q))
+    Q2 = (pow_num(A, ty, Q1[0], Q), pow_num(A, ty, Q1[1], Q))
+    Q2n = (Q2[0], A.neg(ty, Q2[1]))
+    l, T2 = _line(T, Q1, Pe)
+    f = A.mul(ty, f, l)
+    T = T2
+    l, _ = _line(T, Q2n, Pe)
+    f = A.mul(ty, f, l)
+    return pow_num(A, ty, f, (Q ** 12 - 1) // R_ORDER)
+
+def gt_bytes(f):
+    """384-byte serialisation of the standard: highest coefficient first at every level"""
+    out = b''
+    for c4 in reversed(f[2]):
+        for c2 in reversed(c4[2]):
+            out += be(c2[2][1]) + be(c2[2][0])
+    return out
+
+def gt_parse(b):
+    vals = [int.from_bytes(b[i * 32:(i + 1) * 32], 'big') for i in range(12)]
+    it = iter(vals)
+    c4s = []
+    for _ in range(3):
+        c2s = []
+        for _ in range(2):
+            hi = next(it); lo = next(it)
+            c2s.append(mk('Fq2', [lo, hi]))
+        c4s.append(mk('Fq4', [c2s[1], c2s[0]]))
+    return mk('Fq12', [c4s[2], c4s[1], c4s[0]])
